@@ -49,7 +49,11 @@ def pr(prop, rule, crash, quick=30, thorough=600):
 PLANS["C09"] = pr("C09", "each evaluation is one seeded run of the protocol world: up to three hostile raw TCP connections execute generated V2 command streams (every command x connection state x boundary values of sizes, counts, RDY, delays and IDENTIFY options; wrong magic; truncated bodies; garbage and mutated streams; short reads) while a well-behaved publisher/consumer pair does round trips; an executable reference of the documented protocol predicts code, fatality and closure, and /stats confirms that rejected publishes enqueued nothing; distinct = distinct schedule fingerprint", "C09")
 PLANS["C10"] = pr("C10", "each evaluation is one seeded run of the protocol world: generated HTTP/1.1 requests (route x method x present/missing/invalid arguments x body sizes around the limits, Content-Length and chunked, text and binary mpub) checked against a reference table of admissible status codes (never 5xx), /stats compared with the model of topics/channels/paused flags/message counts after every request, and every generated publish executed twice (HTTP on one topic, the equivalent TCP command on a twin topic) with acceptance and delivered multisets compared; distinct = distinct schedule fingerprint", "C10")
 
-WORLD_BIN = {"queue": "world", "lookupd": "world", "proto": "world"}
+PLANS["C06"] = dict(stages=[dict(bin="world", world="meta", prop="C06", share=1.0)], quick_s=30, thorough_s=600, level="fault_enumeration",
+    rule="each evaluation is one seeded history of topic/channel create/delete/pause/unpause (HTTP and SUB), idle points, second-instance attempts and graceful restarts against the real nsqd whose file-system calls go through simos; EVERY hook boundary of every metadata write (before/after open, write, sync, close, rename), every acknowledgement and every idle point is a kill point: nsqd.dat must parse there, and a fresh nsqd started on that file must show a registry the daemon passed through since the last idle point and reflect every acknowledged pause; one third of the runs inject EIO/ENOSPC/short writes into the metadata write; distinct = distinct schedule fingerprint; non-trivial = more than 3 kill points",
+    components=dict(real=REAL_Q + ["internal/dirlock (real flock)"], stub=STUB_Q + ["simos hooks around os file calls (forwarding to the real tmpfs)"]), assumptions=ASSUME + ["SIGKILL model: every completed system call is visible after the kill, nothing of a call not yet made is"], crash_property="C06")
+
+WORLD_BIN = {"queue": "world", "lookupd": "world", "proto": "world", "meta": "world"}
 SELFTEST_WORLDS = [("queue", "ALL"), ("queue", "C08"), ("queue", "C05"), ("lookupd", "C14"), ("lookupd", "C15")]
 ALL_TARGETS = ["world"]
 
@@ -77,8 +81,9 @@ MANIFEST_TEXT["C15"] = mt("seeded search over hostile TCP byte streams and HTTP 
 MANIFEST_TEXT["C09"] = mt("seeded search over generated V2 command streams, connection states and boundary values against the real nsqd with a bystander; oracle: executable reference of the documented protocol (code, fatality, closure per command and state) plus side-effect check through /stats (rejected PUB/DPUB enqueue nothing, MPUB all-or-nothing) and bystander round trips. Largely input-driven; the simulator adds short reads, resets at arbitrary points, the fake clock and replay.", "DESIGN.md 3 C09", "deterministic simulation: protocol reference table + side-effect oracle")
 MANIFEST_TEXT["C10"] = mt("seeded search over generated HTTP requests against the real nsqd; oracle: reference table of admissible status codes (never 5xx), registry/counter model compared with /stats after every request, and HTTP-vs-TCP twin publishes whose acceptance and consumed multisets must agree.", "DESIGN.md 3 C10", "deterministic simulation: status reference + HTTP/TCP twin equivalence")
 
+MANIFEST_TEXT["C06"] = mt("fault enumeration: every simos hook boundary of every metadata write in every generated history is a SIGKILL point (plus acknowledgements and idle points); at each the file must be absent or a complete document, and a fresh nsqd on that snapshot must load and show a registry state the original passed through since the last idle point, with acknowledged pauses reflected; write-fault injection keeps the previous file; a second instance on a data path in use is refused. Histories are sampled by seed; kill points within a history are enumerated exhaustively.", "DESIGN.md 3 C06", "deterministic simulation: kill-point enumeration over simos hooks + restart comparison")
+
 NOT_APPLICABLE = {
- "C06": "not yet built in this session (planned: fault enumeration over simos crash points)",
  "C11": "not yet built in this session",
  "C16": "not yet built in this session",
  "C17": "not yet built in this session", "C18": "not yet built in this session", "C19": "not yet built in this session",
